@@ -57,6 +57,8 @@ func runC13(c *Ctx, r *Run) {
 
 	checkComparators(c, r, fns)
 
+	checkStrides(c, r, "LIMB-1", "internal/ot")
+	r.Require("LIMB-1", 1)
 	r.Require("CMP-1", 1)
 	r.Require("OB-T", 25)
 	r.Require("OT-L", 5)
@@ -1039,4 +1041,96 @@ func checkComparators(c *Ctx, r *Run, fns []*ssa.Function) {
 func returnsBoolSig(sig *types.Signature) bool {
 	b, ok := sig.Results().At(0).Type().Underlying().(*types.Basic)
 	return ok && b.Kind() == types.Bool
+}
+
+// checkStrides: LIMB-1. A fixed-width load or store (binary.*.UintNN / PutUintNN) whose offset into the buffer varies
+// with a loop variable advances by whole words: the offset is a multiple of the width. An offset advancing by single
+// bytes makes consecutive limbs overlap and leaves the tail of the operand unread.
+func checkStrides(c *Ctx, r *Run, rule string, rels ...string) {
+	r.Rule(rule, "loop-indexed fixed-width loads/stores step by the word width (limbs do not overlap, the whole operand is read)")
+	width := map[string]int64{"Uint16": 2, "Uint32": 4, "Uint64": 8, "PutUint16": 2, "PutUint32": 4, "PutUint64": 8}
+	var multipleOf func(v ssa.Value, w int64, d int) bool
+	multipleOf = func(v ssa.Value, w int64, d int) bool {
+		if d > 8 {
+			return false
+		}
+		v = stripConv(v)
+		if k, ok := constInt(v); ok {
+			return k%w == 0
+		}
+		switch x := v.(type) {
+		case *ssa.BinOp:
+			switch x.Op {
+			case token.MUL:
+				return multipleOf(x.X, w, d+1) || multipleOf(x.Y, w, d+1)
+			case token.ADD, token.SUB:
+				return multipleOf(x.X, w, d+1) && multipleOf(x.Y, w, d+1)
+			case token.SHL:
+				if k, ok := constInt(x.Y); ok && (int64(1)<<uint(k))%w == 0 {
+					return true
+				}
+				return multipleOf(x.X, w, d+1)
+			}
+		case *ssa.Phi:
+			for _, e := range x.Edges {
+				if e == ssa.Value(x) {
+					continue
+				}
+				// induction variable: start and step both multiples of w
+				if bo, ok := e.(*ssa.BinOp); ok && (bo.Op == token.ADD || bo.Op == token.SUB) && (bo.X == ssa.Value(x) || bo.Y == ssa.Value(x)) {
+					other := bo.Y
+					if bo.Y == ssa.Value(x) {
+						other = bo.X
+					}
+					if !multipleOf(other, w, d+1) {
+						return false
+					}
+					continue
+				}
+				if !multipleOf(e, w, d+1) {
+					return false
+				}
+			}
+			return true
+		}
+		return false
+	}
+	for _, rel := range rels {
+		p := c.PkgRel(rel)
+		if p == nil {
+			r.Unresolved(rule, rel)
+			continue
+		}
+		for _, top := range funcsOfPkg(c, c.SSA[p.Types]) {
+			withAnon(top, func(fn *ssa.Function) {
+				nth := 0
+				allInstrs(fn, func(in ssa.Instruction) {
+					call, ok := in.(*ssa.Call)
+					if !ok {
+						return
+					}
+					f := call.Call.StaticCallee()
+					if f == nil || f.Pkg == nil || f.Pkg.Pkg.Path() != "encoding/binary" {
+						return
+					}
+					w, isW := width[f.Name()]
+					if !isW || len(call.Call.Args) < 2 {
+						return
+					}
+					sl, isSl := stripConv(call.Call.Args[1]).(*ssa.Slice)
+					if !isSl || sl.Low == nil {
+						return
+					}
+					if _, isC := constInt(sl.Low); isC {
+						return
+					}
+					nth++
+					r.Analysed(c.FuncName(fn))
+					r.Check(rule, fmt.Sprintf("%s|%s #%d|word-stride", c.FuncName(fn), f.Name(), nth), c.Pos(call.Pos()), multipleOf(sl.Low, w, 0),
+						fmt.Sprintf("the offset %s is a multiple of %d", path(sl.Low), w),
+						fmt.Sprintf("%s reads/writes %d bytes at offset %s, which is not a multiple of %d: successive words overlap and the last %d·(n-1) bytes of the operand never enter the computation (for the OT consistency check: a receiver can cheat in the unread columns undetected)", f.Name(), w, path(sl.Low), w, w-1))
+				})
+			})
+		}
+	}
 }
